@@ -231,6 +231,16 @@ class ClModel:
                     addr = T.op("add", 64, val(a[2]), T.sext(64, val(a[3])))
                     res["stores"].append((T.width(v0), addr, v0))
                     res["order"].append(("store", T.width(v0), addr))
+                elif short == "atomic_load":
+                    w = ty(a[0])
+                    addr = val(a[2])
+                    vals[r] = ("load", w, addr)
+                    res["order"].append(("load", w, addr))
+                elif short == "atomic_store":
+                    v0 = val(a[1])
+                    addr = val(a[2])
+                    res["stores"].append((T.width(v0), addr, v0))
+                    res["order"].append(("store", T.width(v0), addr))
                 elif short == "atomic_rmw":
                     w = ty(a[0])
                     if not (isinstance(a[2], tuple) and a[2][0] == "struct" and a[2][2] == "Add"):
